@@ -272,6 +272,7 @@ def run(ctx):
     res.rule("DROP", "the None of a checked add must not flow into a removal")
     res.rule("SUBID", "subtraction never returns its subtrahend unchanged")
     res.rule("MERGE", "quantity-bearing maps are combined by aggregation, never by overwrite")
+    res.rule("BIGNUM", "negative bignums carry -1 - n")
     cg = CallGraph(F)
     reach = cg.reachable(ROOTS)
     casts(F, res, reach)
@@ -281,6 +282,13 @@ def run(ctx):
     drop_rule(F, res)
     sub_identity(F, res)
     merge_rule(F, res, reach)
+    # integers that leave the 64-bit range are encoded as CBOR bignums: the negative form carries -1 - n (rule shared with C09)
+    from . import c09
+    r3 = Result("C02")
+    c09.bignum(F, r3)
+    for o in r3.obs:
+        o.rule = "BIGNUM"
+        res.add([o])
     if ctx.tier == "thorough":
         # release semantics: with overflow checks off the same arithmetic is unchecked without an Assert; the casts are unchanged
         F2 = ctx.facts("nooverflow")
